@@ -127,6 +127,45 @@ impl Family for Corpus {
         // (kind, message)
         let mut findings: Vec<(String, String)> = Vec::new();
         let rt = &self.rt;
+        if let Some(want) = h.get("expect-compile") {
+            // the witness must be rejected with an error of the given kind, and the
+            // report must render in both modes
+            let r = catch(|| {
+                let tree = roto::FileTree::test_file(&name, &text, 0);
+                match tree.compile(rt) {
+                    Ok(_) => Ok(()),
+                    Err(rep) => {
+                        let kinds = roto::verif::report_kinds(&rep);
+                        let mut a = String::new();
+                        let mut b = String::new();
+                        let _ = rep.write(&mut a, true);
+                        let _ = rep.write(&mut b, false);
+                        Err((kinds, b))
+                    }
+                }
+            });
+            out.evals += 1;
+            out.events += 1;
+            match r {
+                Err(p) => findings.push(("compile".into(), format!("{}: {p}", panic_sig(&p)))),
+                Ok(Ok(())) => findings.push(("compile".into(), format!("compiled, expected {want}"))),
+                Ok(Err((kinds, text))) => {
+                    let got = format!("{}-error", kinds.first().copied().unwrap_or("no"));
+                    if got != *want {
+                        findings.push(("compile".into(), format!("expected {want}, got {got}: {text}")));
+                    }
+                }
+            }
+            let sig = h.get("sig").cloned().unwrap_or_default();
+            for (kind, msg) in findings {
+                if status == "known" {
+                    out.viol(sig.clone(), msg, J::obj().set("file", name.as_str()).set("kind", kind.as_str()));
+                } else {
+                    out.viol(format!("regression:{name}:{kind}"), msg, J::obj().set("file", name.as_str()));
+                }
+            }
+            return out;
+        }
         let compiled = catch(|| exec::compile(&text, rt));
         match compiled {
             Err(p) => findings.push(("compile".into(), format!("{}: {p}", panic_sig(&p)))),
